@@ -268,6 +268,12 @@ theorem Sat.transactionUnion {α : Type} {p : P (Option α)} {Q : Option α → 
     | fuel => rw [hp] at this; exact this⟩
 
 
+theorem Sat.ite {α : Type} {c : Prop} [Decidable c] {a b : P α} {Q : α → Prop} (ha : c → Sat a Q) (hb : ¬c → Sat b Q) :
+    Sat (if c then a else b) Q := by
+  split
+  · exact ha ‹_›
+  · exact hb ‹_›
+
 theorem Sat.triv {α : Type} {p : P α} {Q : α → Prop} (h : Sat p Q) : Sat p (fun _ => True) := h.weaken (fun _ _ => trivial)
 
 /-- discharge a side goal `Q a` at a leaf -/
@@ -294,8 +300,9 @@ macro "sat_step" : tactic => `(tactic| first
   | (apply Sat.bind; assumption)
   | intro _ _
   | refine Sat.bind (Q1 := fun _ => True) ?_ (fun _ _ => ?_)
-  | split
-  | dsimp only)
+  | refine Sat.ite (fun _ => ?_) (fun _ => ?_)
+  | dsimp only
+  | split)
 
 macro "sat" : tactic => `(tactic| repeat' sat_step)
 
@@ -326,6 +333,9 @@ theorem decodeTrb_sat (b : Bool) : Sat (decodeTrb b) (fun _ => True) := by unfol
 theorem decodeDbquant_sat : Sat decodeDbquant (fun _ => True) := by unfold decodeDbquant; sat
 
 
+attribute [local irreducible] decodePtype decodePlusptype decodeSorensonPtype decodeCpmPsbi decodeCpfmt decodeCpcfc decodeUui
+  decodeSss decodeElnumRlnum decodeRpsmf decodeTrpi decodeBcm decodeTrb decodeDbquant
+
 theorem readBits_ok_len (W n : Nat) (c : Cur) (v : Nat) (c' : Cur) (h : readBits W n c = .ok (v, c')) :
     c'.bits.length + n = c.bits.length := by
   rcases readBits_cases W n c with ⟨e, he⟩ | ⟨v2, hv2, _, hl⟩
@@ -352,6 +362,8 @@ theorem peiLoop_sat : ∀ (fuel : Nat) (acc : List Nat) (c : Cur), c.bits.length
 
 theorem decodePei_sat : Sat decodePei (fun _ => True) :=
   ⟨fun c => peiLoop_sat (c.bits.length + 1) [] c (by omega)⟩
+
+attribute [local irreducible] decodePei
 
 /-- the picture header parser: total; a returned header carries a quantizer below 32 -/
 theorem decodePicture_sat (d : DecOpts) (prev : Option PicHdr) :
@@ -398,5 +410,261 @@ theorem decodeGob_sat : Sat decodeGob (fun _ => True) := by
   | err e => trivial
   | panic s => exact this
   | fuel => exact this
+
+
+/-! ### macroblock layer -/
+open H263V.Mb
+
+def DqOK (dq : Option Int) : Prop := dq = none ∨ dq = some (-2) ∨ dq = some (-1) ∨ dq = some 1 ∨ dq = some 2
+
+theorem decodeDquant_sat : Sat decodeDquant (fun d => d = -2 ∨ d = -1 ∨ d = 1 ∨ d = 2) := by
+  unfold decodeDquant; sat
+
+attribute [local irreducible] decodeDquant
+
+theorem umvLoop_sat : ∀ (fuel m b : Nat), Sat (umvLoop fuel m b) (fun _ => True) := by
+  intro fuel
+  induction fuel with
+  | zero => intro m b; unfold umvLoop; sat
+  | succ n ih =>
+    intro m b
+    unfold umvLoop
+    repeat' (first | sat_step | exact ih _ _)
+
+theorem readUmv_sat : Sat readUmv (fun _ => True) := by
+  have := umvLoop_sat 13 0 1
+  unfold readUmv; sat
+
+attribute [local irreducible] readUmv
+
+theorem decodeMotionVector_sat (hdr : PicHdr) (running : Nat) : Sat (decodeMotionVector hdr running) (fun _ => True) := by
+  have := readUmv_sat
+  unfold decodeMotionVector; sat
+
+theorem decodeCbpb_sat : Sat decodeCbpb (fun _ => True) := by unfold decodeCbpb; sat
+
+attribute [local irreducible] decodeMotionVector decodeCbpb
+
+/-- `decode_macroblock` after the MCBPC codeword was read as a valid (type, chroma pattern) entry -/
+def mbTail (hdr : PicHdr) (running : Nat) (t : MbType) (ccb ccr : Bool) : P Macroblock := do
+    let (hasCbpb, hasMvdb) ← (if hdr.picType = .pbFrame then readVlc Gen.MODB else pure (false, false))
+    let cbpy ← readVlc Gen.CBPY
+    let (l0, l1, l2, l3) ← P.okOr cbpy .invalidMbCodedBits
+    let luma := if t.isIntra then (l0, l1, l2, l3) else (!l0, !l1, !l2, !l3)
+    if hasCbpb then decodeCbpb else pure ()
+    if Opt.has running Opt.MODIFIED_QUANTIZATION then P.fail .unimplemented else
+    let dq ← (if t.hasQuantizer then do
+        let d ← decodeDquant
+        pure (some d)
+      else pure none)
+    let mv ← (if t.isInter || hdr.picType.isAnyPb then do
+        let m ← decodeMotionVector hdr running
+        pure (some m)
+      else pure none)
+    let addl ← (if t.hasFourVec then do
+        let m2 ← decodeMotionVector hdr running
+        let m3 ← decodeMotionVector hdr running
+        let m4 ← decodeMotionVector hdr running
+        pure (some (m2, m3, m4))
+      else pure none)
+    if hasMvdb then do
+      let _ ← decodeMotionVector hdr running
+      let _ ← decodeMotionVector hdr running
+      let _ ← decodeMotionVector hdr running
+      let _ ← decodeMotionVector hdr running
+      pure ()
+    else pure ()
+    pure (.coded t { luma := luma, cb := ccb, cr := ccr } dq mv addl)
+
+def mbFirst (hdr : PicHdr) : P Nat := if hdr.picType = .iFrame then pure 0 else readBits 8 1
+def mbMcbpc (hdr : PicHdr) : P BPE := match hdr.picType with
+    | .iFrame => readVlc Gen.MCBPC_I
+    | .pFrame => readVlc Gen.MCBPC_P
+    | .disposableP => readVlc Gen.MCBPC_P
+    | _ => P.fail .unimplemented
+
+theorem decodeMacroblock_eq (hdr : PicHdr) (running : Nat) :
+    decodeMacroblock hdr running = (mbFirst hdr >>= fun isCoded =>
+      if isCoded != 0 then pure .uncoded else
+      mbMcbpc hdr >>= fun mcbpc =>
+      match mcbpc with
+      | .stuffing => pure .stuffing
+      | .invalid => P.fail .invalidMbHeader
+      | .valid t ccb ccr => mbTail hdr running t ccb ccr) := rfl
+
+/-- what the macroblock loop relies on: a coded macroblock's DQUANT is one of −2, −1, 1, 2 -/
+def MbPost : Macroblock → Prop
+  | .coded _ _ dq _ _ => DqOK dq
+  | _ => True
+
+theorem mbTail_sat (hdr : PicHdr) (running : Nat) (t : MbType) (ccb ccr : Bool) :
+    Sat (mbTail hdr running t ccb ccr) (fun m => MbPost m ∧ m ≠ .stuffing) := by
+  have h1 := decodeMotionVector_sat hdr running
+  have h2 := decodeCbpb_sat
+  unfold mbTail
+  -- the DQUANT read carries its postcondition into the final `pure`
+  have hdq : Sat (if t.hasQuantizer then do
+        let d ← decodeDquant
+        pure (some d)
+      else pure none : P (Option Int)) DqOK := by
+    split
+    · refine Sat.bind decodeDquant_sat (fun d hd => ?_)
+      refine Sat.pure _ _ ?_
+      unfold DqOK; rcases hd with h | h | h | h <;> simp [h]
+    · exact Sat.pure _ _ (Or.inl rfl)
+  repeat' (first | (refine Sat.pure _ _ ⟨?_, by simp⟩; simpa [MbPost] using ‹DqOK _›) | sat_step)
+
+theorem mbFirst_sat (hdr : PicHdr) : Sat (mbFirst hdr) (fun _ => True) := by unfold mbFirst; sat
+theorem mbMcbpc_sat (hdr : PicHdr) : Sat (mbMcbpc hdr) (fun _ => True) := by unfold mbMcbpc; sat
+
+attribute [local irreducible] mbTail mbFirst mbMcbpc
+
+theorem decodeMacroblock_sat (hdr : PicHdr) (running : Nat) : Sat (decodeMacroblock hdr running) MbPost := by
+  have h1 := mbFirst_sat hdr
+  have h2 := mbMcbpc_sat hdr
+  rw [decodeMacroblock_eq]
+  repeat' (first | sat_step | exact (mbTail_sat hdr running _ _ _).weaken (fun _ h => h.1) | exact trivial)
+
+
+theorem bind_ok_inv {α β : Type} (p : P α) (f : α → P β) (c : Cur) (b : β) (c' : Cur) (h : (p >>= f) c = .ok (b, c')) :
+    ∃ a c1, p c = .ok (a, c1) ∧ f a c1 = .ok (b, c') := by
+  change P.bind p f c = .ok (b, c') at h
+  unfold P.bind at h
+  cases hp : p c with
+  | ok r => obtain ⟨a, c1⟩ := r; rw [hp] at h; exact ⟨a, c1, rfl, h⟩
+  | err e => rw [hp] at h; simp at h
+  | panic s => rw [hp] at h; simp at h
+  | fuel => rw [hp] at h; simp at h
+
+theorem Sat.ok_len {α : Type} {p : P α} {Q : α → Prop} (h : Sat p Q) (c : Cur) (a : α) (c' : Cur) (e : p c = .ok (a, c')) :
+    c'.bits.length ≤ c.bits.length ∧ Q a := by
+  have := h.run c
+  rw [e] at this
+  exact this
+
+def rootFork {α : Type} (t : Array (Entry α)) : Bool :=
+  match t[0]? with
+  | some (Entry.fork _ _) => true
+  | _ => false
+
+theorem rootFork_spec {α : Type} (t : Array (Entry α)) (h : rootFork t = true) : ∃ z o, t[0]? = some (Entry.fork z o) := by
+  unfold rootFork at h
+  cases h0 : t[0]? with
+  | none => rw [h0] at h; simp at h
+  | some e =>
+    cases e with
+    | fin a => rw [h0] at h; simp at h
+    | fork z o => exact ⟨z, o, rfl⟩
+
+/-- checked on the regenerated tables: the root of each of these trees is a fork, so a codeword has at least one bit -/
+theorem mcbpc_roots : (∃ z o, Gen.MCBPC_I[0]? = some (.fork z o)) ∧ (∃ z o, Gen.MCBPC_P[0]? = some (.fork z o)) ∧
+    (∃ z o, Gen.TCOEF[0]? = some (.fork z o)) :=
+  ⟨rootFork_spec _ (by decide +kernel), rootFork_spec _ (by decide +kernel), rootFork_spec _ (by decide +kernel)⟩
+
+/-- a stuffing macroblock consumed at least one bit (its MCBPC codeword) -/
+theorem decodeMacroblock_stuffing_strict (hdr : PicHdr) (running : Nat) (c c' : Cur)
+    (h : decodeMacroblock hdr running c = .ok (.stuffing, c')) : c'.bits.length < c.bits.length := by
+  rw [decodeMacroblock_eq] at h
+  obtain ⟨isCoded, c1, e1, h⟩ := bind_ok_inv _ _ _ _ _ h
+  have l1 := ((mbFirst_sat hdr).ok_len c isCoded c1 e1).1
+  split at h
+  · change P.pure Macroblock.uncoded c1 = _ at h
+    simp [P.pure] at h
+  · obtain ⟨mcbpc, c2, e2, h⟩ := bind_ok_inv _ _ _ _ _ h
+    have l2 : c2.bits.length < c1.bits.length := by
+      unfold mbMcbpc at e2
+      obtain ⟨⟨z1, o1, r1⟩, ⟨z2, o2, r2⟩, _⟩ := mcbpc_roots
+      cases hpt : hdr.picType <;> rw [hpt] at e2 <;> dsimp only at e2 <;>
+        first
+        | exact readVlc_strict _ _ _ r1 c1 mcbpc c2 e2
+        | exact readVlc_strict _ _ _ r2 c1 mcbpc c2 e2
+        | (simp [P.fail] at e2)
+    split at h
+    · change P.pure Macroblock.stuffing c2 = _ at h
+      simp only [P.pure, Out.ok.injEq, Prod.mk.injEq] at h
+      rw [← h.2]; omega
+    · simp [P.fail] at h
+    · have := ((mbTail_sat hdr running _ _ _).ok_len c2 _ c' h).2.2
+      exact absurd rfl this
+
+/-! ### block layer -/
+
+theorem tcoefLoop_sat (d : DecOpts) (hdr : PicHdr) (running : Nat) :
+    ∀ (fuel : Nat) (acc : List TCoef) (c : Cur), c.bits.length < fuel → SatAt (tcoefLoop d hdr running fuel acc) (fun _ => True) c := by
+  intro fuel
+  induction fuel with
+  | zero => intro acc c h; omega
+  | succ n ih =>
+    intro acc c h
+    unfold tcoefLoop
+    refine SatAt.bind ((Sat.readVlc Gen.TCOEF).run c) ?_
+    intro s c1 e1 _ _
+    obtain ⟨_, _, ⟨z, o, r⟩⟩ := mcbpc_roots
+    have l1 := readVlc_strict _ _ _ r c s c1 e1
+    refine SatAt.bind ((Sat.okOr s .invalidShortCoef).run c1) ?_
+    intro s' c2 _ l2 _
+    -- from here on every continuation runs at a cursor strictly shorter than `c`
+    have key : ∀ (acc' : List TCoef) (c3 : Cur), c3.bits.length ≤ c2.bits.length →
+        SatAt (tcoefLoop d hdr running n acc') (fun _ => True) c3 := fun acc' c3 h3 => ih acc' c3 (by omega)
+    cases s' with
+    | esc =>
+      simp only
+      refine SatAt.bind (Q1 := fun w => w = 11 ∨ w = 7 ∨ w = 8) ?_ ?_
+      · split
+        · refine SatAt.bind ((Sat.readBits 8 1).run c2) ?_
+          intro f c3 _ _ _
+          refine (Sat.pure _ _ ?_).run c3
+          split <;> simp
+        · exact (Sat.pure _ _ (by simp)).run c2
+      · intro width c3 _ l3 hw
+        refine SatAt.bind ((Sat.readBits 8 1).run c3) ?_
+        intro last c4 _ l4 _
+        refine SatAt.bind ((Sat.readBits 8 6).run c4) ?_
+        intro run c5 _ l5 _
+        refine SatAt.bind ((Sat.readSignedBits 16 width (by omega)).run c5) ?_
+        intro level c6 _ l6 _
+        split
+        · exact (Sat.fail _ _).run c6
+        · split
+          · split
+            · exact (Sat.fail _ _).run c6
+            · exact (Sat.fail _ _).run c6
+          · split
+            · exact (Sat.pure _ _ trivial).run c6
+            · exact key _ c6 (by omega)
+    | run last run level =>
+      simp only
+      refine SatAt.bind ((Sat.readBits 8 1).run c2) ?_
+      intro sign c3 _ l3 _
+      split
+      · exact (Sat.pure _ _ trivial).run c3
+      · exact key _ c3 (by omega)
+
+/-- `decode_block`: total; an INTRADC code is a byte -/
+theorem decodeBlock_sat (d : DecOpts) (hdr : PicHdr) (running : Nat) (t : MbType) (present : Bool) :
+    Sat (decodeBlock d hdr running t present) (fun b => ∀ dc, b.intradc = some dc → dc < 256) := by
+  unfold decodeBlock
+  refine Sat.bind (Q1 := fun dc => ∀ v, dc = some v → v < 256) ?_ ?_
+  · split
+    · refine Sat.bind Sat.readU8 (fun v hv => ?_)
+      refine Sat.bind (Sat.okOr _ _) (fun dc hdc => ?_)
+      refine Sat.pure _ _ ?_
+      intro v' hv'
+      simp only [Option.some.injEq] at hv'
+      subst hv'
+      unfold intraDcOfByte at hdc
+      split at hdc
+      · simp at hdc
+      · simp only [Option.some.injEq] at hdc; omega
+    · exact Sat.pure _ _ (by simp)
+  · intro dc hdc
+    cases present
+    · simp only [Bool.false_eq_true, ↓reduceIte]
+      exact Sat.pure _ _ (fun v hv => hdc v hv)
+    · simp only [↓reduceIte]
+      refine ⟨fun c => ?_⟩
+      refine SatAt.bind (tcoefLoop_sat d hdr running (c.bits.length + 1) [] c (by omega)) ?_
+      intro tc c1 _ _ _
+      exact (Sat.pure _ _ (fun v hv => hdc v hv)).run c1
 
 end H263V.Lemmas.Total
